@@ -1,5 +1,6 @@
 import LunarVerif.Base.Proto
 import LunarVerif.Spec.C09
+import LunarVerif.Model.C09Dispatch
 /-!
 Driver for C09: `lvdriver_c09 run` (model answers) / `lvdriver_c09 judge` (Spec on impl answers).
 
@@ -69,6 +70,37 @@ def parseRemedy (ws : List String) : Option (Nat × Remedy) := do
   pure (id, { name := pctDec name, allowed := allowed, winSec := win, status := status,
               spillOn := spill != 0, renewDay := renew, alloc := alloc })
 
+/-- `dpol scope=g|e [url= method=] name= enabled= kind=throttle <remedy fields> | kind=retry attempts= cooldown= mult= lo= hi=` -/
+def parseDPol (ws : List String) : Option DPol := do
+  let scope ← kv ws "scope"
+  let name ← kv ws "name"
+  let enabled ← kvNat ws "enabled"
+  let kind ← kv ws "kind"
+  let ep ← if scope == "g" then some none
+           else if scope == "e" then do
+             let u ← kv ws "url"
+             let m ← kv ws "method"
+             pure (some (pctDec u, m))
+           else none
+  let k ← if kind == "throttle" then do
+            let (_, r) ← parseRemedy ("id=0" :: ws)
+            if ws.contains "nohdr" then none else pure (DKind.throttle r)
+          else if kind == "retry" then do
+            let _ ← kvInt ws "attempts"
+            let _ ← kvInt ws "cooldown"
+            let _ ← kvInt ws "mult"
+            let _ ← kvInt ws "lo"
+            let _ ← kvInt ws "hi"
+            pure DKind.retry
+          else none
+  pure { ep := ep, name := pctDec name, enabled := enabled != 0, kind := k }
+
+def fmtDispatch : Answer → String
+  | .noop => "pass"
+  | .early s => s!"early {s} body={pctEnc "Too many requests"}"
+  | .err _ => "err:dispatch"
+  | .panic => "panic"
+
 structure Tbl where
   remedies : List (Nat × Remedy) := []
 
@@ -95,6 +127,9 @@ structure RunSt where
   st : State Key := []
   identity : Bool := true    -- plugin wiring: identity obfuscator (production) unless `wiring hasher=md5`
   started : Bool := false    -- an op of this case was already seen (`wiring` must be the first)
+  dpols : List DPol := []    -- dispatcher family: configured policies (in order)
+  dloaded : Bool := false    -- … a configuration was accepted and is in force
+  dst : State Key := []      -- … its own rate-limit state (services.Initialize per `dload`)
 
 def parseWiring (ws : List String) : Option Bool :=
   match kv ws "hasher" with
@@ -109,6 +144,20 @@ def runStep1 (s : RunSt) (line : String) : RunSt × String :=
     match parseWiring ws, s.started with
     | some b, false => ({ s with identity := b }, "ok")
     | _, _ => (s, "bad-op")
+  | "dpol" :: ws =>
+    match parseDPol ws with
+    | some p => ({ s with dpols := s.dpols ++ [p] }, "ok")
+    | none => (s, "bad-op")
+  | ["dload"] =>
+    if accepted s.dpols then ({ s with dloaded := true, dst := [] }, "ok")
+    else ({ s with dloaded := false, dst := [] }, "refused:duplicate-name")
+  | "dreq" :: ws =>
+    match kv ws "url", kv ws "method", kvNat ws "t", parseHdrs (kvAll ws "h") with
+    | some u, some m, some t, some hs =>
+      if !s.dloaded then (s, "no-config") else
+      let (st', a) := dispatchStep capUnits s.dst s.dpols (pctDec u) m hs t
+      ({ s with dst := st' }, fmtDispatch a)
+    | _, _, _, _ => (s, "bad-op")
   | "remedy" :: ws =>
     match parseRemedy ws with
     | some (id, r) => ({ s with tbl := s.tbl.put id r }, "ok")
@@ -180,6 +229,10 @@ structure JudgeSt where
   bad : Option String := none
   identity : Bool := true
   started : Bool := false
+  dpols : List DPol := []
+  dloaded : Bool := false
+  dhist : List (Event PKey) := []   -- dispatcher family, most recent first
+  dskip : Bool := false             -- a request ran two throttling remedies: verdicts not attributable
 
 def parseAnswer (out : String) : Option Answer :=
   match (words out).filter (fun w => !w.startsWith "reads=") with
@@ -195,6 +248,42 @@ def judgeStep1 (s : JudgeSt) (op out : String) : JudgeSt :=
     match parseWiring ws, s.started with
     | some b, false => { s with identity := b }
     | _, _ => s
+  | "dpol" :: ws =>
+    match parseDPol ws with
+    | some p => { s with dpols := s.dpols ++ [p] }
+    | none => s
+  | ["dload"] =>
+    -- the IMPLEMENTATION's verdict on the configuration decides whether requests are judged: if it accepts two
+    -- policies with one name, every policy must still keep its own count
+    { s with dloaded := out == "ok", dhist := [] }
+  | "dreq" :: ws =>
+    match kv ws "url", kv ws "method", kvNat ws "t", parseHdrs (kvAll ws "h") with
+    | some u, some m, some t, some hs =>
+      if !s.dloaded then s else
+      let ths := throttlesOf s.dpols (pctDec u) m
+      let ows := words out
+      let ans : Option Answer := match ows with
+        | ["pass"] => some .noop
+        | ["early", st, b] =>
+          if b == "body=" ++ pctEnc "Too many requests" then st.toInt?.map .early else none
+        | _ => none
+      match ths, ans with
+      | [], some .noop => s
+      | [], _ => { s with bad := s.bad <|> some s!"request-without-throttling-remedy-not-passed t={t} got={pctEnc out}" }
+      | [(i, r)], some a =>
+        let p : PReq := ⟨r, hs, t⟩
+        if !answerOk p a then
+          { s with bad := s.bad <|> some s!"rejection-not-as-configured t={t} got={pctEnc out} want-status={effStatus r}" }
+        else match observe1P p a with
+          | some e =>
+            -- per remedy AND endpoint as configured: the policy's position is part of the group identity
+            let e' : Event PKey := { e with key := ⟨e.key.code, ⟨s!"{i}#{e.key.spec.remedy}", e.key.spec.group⟩⟩ }
+            { s with dhist := e' :: s.dhist }
+          | none => s
+      | [_], none =>
+        { s with bad := s.bad <|> some s!"rejection-not-as-configured t={t} got={pctEnc out} (status/body of a throttling rejection)" }
+      | _, _ => { s with dskip := true }
+    | _, _, _, _ => s
   | "remedy" :: ws =>
     match parseRemedy ws with
     | some (id, r) => { s with tbl := s.tbl.put id r }
@@ -276,7 +365,7 @@ def judgeFinish (s : JudgeSt) : String :=
   match s.bad with
   | some b => s!"fail - {b}"
   | none =>
-    let hP := s.hist.reverse
+    let hP := s.hist.reverse ++ (if s.dskip then [] else s.dhist.reverse)
     -- groups as the allocation table distinguishes them (theorem `plugin_spec_holds_groups`)
     let h := hP.map (rekey (·.spec))
     if holds capExact h then "ok"
